@@ -14,11 +14,11 @@ let bytes_of_hex (s : string) : n list =
 let hex_of_bytes (l : n list) : string =
   if l = [] then "-" else String.concat "" (List.map (fun b -> Printf.sprintf "%02x" (int_of_n b)) l)
 
-(* argv: global_check weak_refused unreg_single (0/1 each); default 0 0 0 = /repo HEAD *)
+(* argv: global_check weak_refused unreg_single udp_gated (0/1 each) *)
 let flag i = Array.length Sys.argv > i && Sys.argv.(i) = "1"
 let ext = ref default_ext
 let tight = ref false
-let cf () = { cfg_global_check = flag 1; cfg_weak_refused = flag 2; cfg_unreg_single = flag 3; cfg_ext = !ext; cfg_tight = !tight }
+let cf () = { cfg_global_check = flag 1; cfg_weak_refused = flag 2; cfg_unreg_single = flag 3; cfg_ext = !ext; cfg_udp_gated = flag 4; cfg_tight = !tight }
 
 let p = ref proc_init
 
@@ -28,7 +28,7 @@ let obs () =
     Printf.sprintf "%d,%s,%s,%s" (int_of_z (st_code c.c_st)) (b2s c.c_vo)
       (if c.c_ext = [] then "-" else String.concat "." (List.map (fun k -> string_of_int (int_of_nat k)) c.c_ext))
       (hex_of_bytes c.c_out) in
-  Printf.printf "o err=%s unmod=%s%s\n" (b2s pr.p_err) (b2s pr.p_unmod)
+  Printf.printf "o err=%s unmod=%s in=%d%s\n" (b2s pr.p_err) (b2s pr.p_unmod) (List.length pr.p_input)
     (String.concat "" (List.map (fun c -> " | " ^ conn_s c) pr.p_conns))
 
 let doit (o : op) = p := step (cf ()) !p o; obs ()
@@ -41,6 +41,8 @@ let () =
     | "case" :: _ -> p := proc_init; ext := default_ext; tight := false; print_endline line
     | ["tight"; b] -> tight := (b = "1"); obs ()
     | ["types"; a; b; c; d] -> ext := List.map (fun s -> z_of_int (int_of_string s)) [a; b; c; d]; obs ()
+    | ["udpon"; s] -> doit (OUdpOn (ni s))
+    | ["udp"; s; hx] -> doit (OUdp (ni s, bytes_of_hex hx))
     | ["setfile"; s; hx] -> doit (OSetFile (ni s, bytes_of_hex hx))
     | "screen" :: w :: h :: name :: "none" :: [] ->
         doit (OScreen { s_pw = PwNone; s_w = n_of_int (int_of_string w); s_h = n_of_int (int_of_string h); s_name = bytes_of_hex name })
